@@ -90,6 +90,8 @@ def unwindset(n, exact=False, dynamic=False, extra=None, ncalls=1, nblk=2, avail
     }
     for i in range(8):
         u["harness.%d" % i] = max(n + 2, ncalls + 2)
+    for i in range(3):   # one_call(): history loop (n) and the hash-head invariant loop (<= 8192 heads)
+        u["one_call.%d" % i] = 20
     if exact:
         u.update({"rfc_codes.0": n + 3, "rfc_codes.1": n + 3, "rfc1951_inflate.0": n + 2,
                   "rfc1951_inflate.1": nblk + 1})
